@@ -64,6 +64,11 @@ fn random_cfg(rng: &mut StdRng) -> Cfg {
     }
 }
 
+/// The library's default limits (under which values are not culled before the type checker sees them).
+fn default_cfg(perm: bool) -> Cfg {
+    Cfg { l: 10, f: 50, g: 30_000_000, v: 250, m: 394, perm }
+}
+
 fn contract(code: &[u8]) -> Contract {
     Contract::new(
         code.to_vec(),
@@ -220,6 +225,27 @@ pub fn cyclic_dataflow(rng: &mut StdRng) -> Vec<u8> {
     for _ in 0..rng.gen_range(1..5) {
         loc(rng, &mut c, nslots);
         c.push(0x54);
+        // how the loaded word is used besides being copied: as an address, a signed number, a condition ...
+        match rng.gen_range(0..8) {
+            0 => c.extend([0x80, 0x31, 0x50]),             // balance(v)
+            1 => c.extend([0x80, 0x3b, 0x50]),             // extcodesize(v)
+            2 => c.extend([0x80, 0x60, 0x00, 0x12, 0x50]), // slt(0, v)
+            3 => c.extend([0x80, 0x15, 0x50]),             // iszero(v)
+            _ => {}
+        }
+        // now and then the word is written straight back through a mask: sstore(k, and(sload(k), mask))
+        if rng.gen_bool(0.25) {
+            let k = rng.gen_range(0..nslots);
+            c.extend([0x60, k, 0x54]);
+            match rng.gen_range(0..3) {
+                0 => c.extend([0x80, 0x31, 0x50]),
+                1 => c.extend([0x80, 0x60, 0x00, 0x12, 0x50]),
+                _ => {}
+            }
+            c.push(0x73);
+            c.extend([0xff; 20]);
+            c.extend([0x16, 0x60, k, 0x55]);
+        }
         for _ in 0..rng.gen_range(1..3) {
             c.push(0x80);
             match rng.gen_range(0..6) {
@@ -314,8 +340,17 @@ pub fn run(o: &Opts) -> R<()> {
                 1 => vec![Item::Push(vec![1]), Item::Push(vec![0]), Item::Op(0x52), Item::Push(vec![0x20]), Item::Push(vec![0]), Item::Op(0x20)],
                 _ => vec![Item::Push(vec![1])],
             };
-            items.extend([Item::Push(cb.clone()), Item::Op(0x01), Item::Op(0x80), Item::Op(0x54), Item::Op(0x90), Item::Op(0x55), Item::Op(0x00)]);
+            // one access at base + c, and a second one at base + c' (another member of the same struct / element)
+            let base_items = items.clone();
+            items.extend([Item::Push(cb.clone()), Item::Op(0x01), Item::Op(0x80), Item::Op(0x54), Item::Op(0x90), Item::Op(0x55)]);
+            let mut two = items.clone();
+            items.push(Item::Op(0x00));
             cases.push(("crafted:slot-arithmetic".into(), assemble(&items), random_cfg(&mut rng)));
+            cases.push(("crafted:slot-arithmetic".into(), assemble(&items), default_cfg(rng.gen_bool(0.5))));
+            two.extend(base_items);
+            two.extend([Item::Push(vec![*[0u8, 1, 2].choose(&mut rng).unwrap()]), Item::Op(0x01), Item::Op(0x54), Item::Op(0x50), Item::Op(0x00)]);
+            cases.push(("crafted:slot-arithmetic".into(), assemble(&two), random_cfg(&mut rng)));
+            cases.push(("crafted:slot-arithmetic".into(), assemble(&two), default_cfg(rng.gen_bool(0.5))));
         }
     }
     if let Some(p) = o.get("roles") {
@@ -326,9 +361,10 @@ pub fn run(o: &Opts) -> R<()> {
         }
     }
     for code in cyclic_programs() {
-        for _ in 0..4 {
+        for _ in 0..3 {
             cases.push(("crafted".into(), code.clone(), random_cfg(&mut rng)));
         }
+        cases.push(("crafted".into(), code.clone(), default_cfg(rng.gen_bool(0.5))));
     }
     let mut real: Vec<Vec<u8>> = Vec::new();
     if let Some(p) = o.get("corpus") {
@@ -348,6 +384,7 @@ pub fn run(o: &Opts) -> R<()> {
             }
             1 => ("control-flow", progen::any(&mut rng).code),
             2 => ("idioms", crate::idioms::random_contract(&mut rng).1),
+            3 if i % 14 == 3 => ("cyclic-dataflow", cyclic_dataflow(&mut rng)),
             3 => ("constant-program", crate::c07::constant_program(&mut rng).0),
             4 | 5 if !real.is_empty() => {
                 let mut m = real.choose(&mut rng).unwrap().clone();
